@@ -21,8 +21,13 @@ use crate::config::find_ignore_file_path;
 mod config;
 mod opt;
 mod output_diff;
+#[cfg(feature = "verif")]
+mod verif;
 
+#[cfg(not(feature = "verif"))]
 static EXIT_CODE: AtomicI32 = AtomicI32::new(0);
+#[cfg(feature = "verif")]
+static EXIT_CODE: verif::VerifAtomicI32 = verif::VerifAtomicI32::new(0);
 static UNFORMATTED_FILE_COUNT: AtomicU32 = AtomicU32::new(0);
 
 enum FormatResult {
@@ -341,6 +346,8 @@ fn format(opt: opt::Opt) -> Result<i32> {
 
     // Create a thread to handle the formatting output
     pool.execute(move || {
+        #[cfg(feature = "verif")]
+        verif::set_class("O");
         for output in rx {
             match output {
                 Ok(result) => match result {
@@ -419,8 +426,12 @@ fn format(opt: opt::Opt) -> Result<i32> {
 
                     let config = config_resolver.load_configuration_for_stdin()?;
 
+                    #[cfg(feature = "verif")]
+                    let verif_idx = verif::next_worker_index();
                     pool.execute(move || {
                         let mut buf = String::new();
+                        #[cfg(feature = "verif")]
+                        let _verif_turn = verif::worker_turn(verif_idx);
                         tx.send(
                             stdin()
                                 .read_to_string(&mut buf)
@@ -484,8 +495,12 @@ fn format(opt: opt::Opt) -> Result<i32> {
 
                         let config = config_resolver.load_configuration(&path)?;
 
+                        #[cfg(feature = "verif")]
+                        let verif_idx = verif::next_worker_index();
                         let tx = tx.clone();
                         pool.execute(move || {
+                            #[cfg(feature = "verif")]
+                            let _verif_turn = verif::worker_turn(verif_idx);
                             tx.send(
                                 format_file(&path, config, range, &opt, verify_output).map_err(
                                     |error| {
